@@ -3,4 +3,6 @@ import PrecondVerif.Kit.Proto
 import PrecondVerif.Model.Shapes
 import PrecondVerif.Lemmas.Shapes
 import PrecondVerif.Drv.C06
+import PrecondVerif.Lemmas.Partition
+import PrecondVerif.Lemmas.Blockify
 import PrecondVerif.Props.C06
